@@ -423,8 +423,13 @@ func init() {
 				Resolve: func(p ResolveParams) (interface{}, error) {
 					if schema, ok := p.Source.(Schema); ok {
 						results := []Type{}
-						for _, ttype := range schema.TypeMap() {
-							results = append(results, ttype)
+						typeNames := []string{}
+						for name := range schema.TypeMap() {
+							typeNames = append(typeNames, name)
+						}
+						sort.Strings(typeNames)
+						for _, name := range typeNames {
+							results = append(results, schema.TypeMap()[name])
 						}
 						return results, nil
 					}
@@ -552,11 +557,16 @@ func init() {
 					return nil, nil
 				}
 				fields := []*FieldDefinition{}
-				for _, field := range ttype.Fields() {
+				var fieldNames sort.StringSlice
+				for name, field := range ttype.Fields() {
 					if !includeDeprecated && field.DeprecationReason != "" {
 						continue
 					}
-					fields = append(fields, field)
+					fieldNames = append(fieldNames, name)
+				}
+				sort.Sort(fieldNames)
+				for _, name := range fieldNames {
+					fields = append(fields, ttype.Fields()[name])
 				}
 				return fields, nil
 			}
@@ -615,8 +625,13 @@ func init() {
 		Resolve: func(p ResolveParams) (interface{}, error) {
 			if ttype, ok := p.Source.(*InputObject); ok {
 				fields := []*InputObjectField{}
-				for _, field := range ttype.Fields() {
-					fields = append(fields, field)
+				fieldNames := []string{}
+				for name := range ttype.Fields() {
+					fieldNames = append(fieldNames, name)
+				}
+				sort.Strings(fieldNames)
+				for _, name := range fieldNames {
+					fields = append(fields, ttype.Fields()[name])
 				}
 				return fields, nil
 			}
